@@ -1,8 +1,8 @@
 #!/venv/bin/python
-"""Confirm a seeded change (patch.diff + demo.py) in a fresh scratch worktree of /repo:
-   demo passes on the unchanged tree, fails with the change, and the test suite still passes with the change
-   (apart from the always-failing tests of BASELINE.json).  The worktree is removed afterwards.
-   usage: verify_seed.py <dir with patch.diff/demo.py> [--skip-suite]"""
+"""Confirm a behaviour-preserving change (patch.diff + equiv.py) in a fresh scratch worktree of /repo:
+   equiv.py prints the same DIGEST line on the unchanged tree and with the change, and the test suite still passes with the
+   change (apart from the always-failing tests of BASELINE.json).  The worktree is removed afterwards.
+   usage: verify_benign.py <dir with patch.diff/equiv.py> [--skip-suite]"""
 import json
 import os
 import re
@@ -16,11 +16,16 @@ def sh(cmd, **kw):
     return subprocess.run(cmd, shell=True, capture_output=True, text=True, **kw)
 
 
+def digest(out):
+    m = re.findall(r"^DIGEST (\S+)", out, flags=re.M)
+    return m[-1] if m else None
+
+
 def main():
     d = os.path.abspath(sys.argv[1])
     skip = "--skip-suite" in sys.argv
     name = os.path.basename(d)
-    wt = tempfile.mkdtemp(prefix="vs-%s-" % name, dir="/tmp")
+    wt = tempfile.mkdtemp(prefix="vb-%s-" % name, dir="/tmp")
     os.rmdir(wt)
     r = sh("git -C /repo worktree add -q --detach %s HEAD" % wt)
     if r.returncode:
@@ -32,9 +37,10 @@ def main():
     try:
         sh("cp /repo/src/pylife/rainflow_ext*.so %s/src/pylife/" % wt)
         env = "cd %s && PYTHONPATH=%s/src MPLBACKEND=Agg" % (wt, wt)
-        demo = os.path.join(d, "demo.py")
-        a = sh("%s /venv/bin/python %s" % (env, demo), timeout=1800)
-        out["demo_clean_exit"] = a.returncode
+        eq = os.path.join(d, "equiv.py")
+        a = sh("%s /venv/bin/python %s" % (env, eq), timeout=3600)
+        out["equiv_clean_exit"] = a.returncode
+        out["digest_clean"] = digest(a.stdout)
         ap = sh("git -C %s apply --whitespace=nowarn %s" % (wt, os.path.join(d, "patch.diff")))
         out["applies"] = ap.returncode == 0
         if not out["applies"]:
@@ -43,9 +49,9 @@ def main():
             if "extension.pyx" in open(os.path.join(d, "patch.diff")).read():
                 b = sh("cd %s && /venv/bin/python setup.py build_ext --inplace" % wt, timeout=1800)
                 out["rebuilt_ext"] = b.returncode == 0
-            b = sh("%s /venv/bin/python %s" % (env, demo), timeout=1800)
-            out["demo_changed_exit"] = b.returncode
-            out["demo_changed_tail"] = (b.stdout + b.stderr)[-400:]
+            b = sh("%s /venv/bin/python %s" % (env, eq), timeout=3600)
+            out["equiv_changed_exit"] = b.returncode
+            out["digest_changed"] = digest(b.stdout)
             if not skip:
                 t = sh("%s /venv/bin/python -m pytest -ra -q -p no:cacheprovider --timeout=900 "
                        "--continue-on-collection-errors -n 8 2>&1 | tail -40" % env, timeout=3600)
@@ -54,18 +60,16 @@ def main():
                 always = json.load(open("/root/.vp/BASELINE.json"))["always_fail"]
 
                 def norm(x):
-                    x = x.replace("/", ".").replace(".py::", "::")
-                    return x
-                unexpected = [f for f in failed if norm(f) not in always]
-                m = re.search(r"(\d+) passed", tail)
-                out["suite_passed"] = int(m.group(1)) if m else None
+                    return x.replace("/", ".").replace(".py::", "::")
+                out["suite_passed"] = int(re.search(r"(\d+) passed", tail).group(1)) if re.search(r"(\d+) passed", tail) else None
                 out["suite_failed"] = failed
-                out["suite_unexpected_failures"] = unexpected
+                out["suite_unexpected_failures"] = [f for f in failed if norm(f) not in always]
                 out["suite_summary"] = tail.strip().splitlines()[-1] if tail.strip() else ""
     finally:
         sh("git -C /repo worktree remove --force %s" % wt)
         shutil.rmtree(wt, ignore_errors=True)
-    ok = out.get("demo_clean_exit") == 0 and out.get("applies") and out.get("demo_changed_exit", 0) != 0 and \
+    ok = out.get("equiv_clean_exit") == 0 and out.get("applies") and out.get("equiv_changed_exit") == 0 and \
+        out.get("digest_clean") is not None and out.get("digest_clean") == out.get("digest_changed") and \
         (skip or (not out.get("suite_unexpected_failures") and (out.get("suite_passed") or 0) >= 1480))
     out["confirmed"] = bool(ok)
     print(json.dumps(out, indent=1))
